@@ -84,7 +84,7 @@ func (stream *receiverStream) processRTP(now time.Time, pktHeader *rtp.Header) {
 		// compute jitter
 		// https://tools.ietf.org/html/rfc3550#page-39
 		D := now.Sub(stream.lastRTPTimeTime).Seconds()*stream.clockRate -
-			(float64(pktHeader.Timestamp) - float64(stream.lastRTPTimeRTP))
+			float64(int32(pktHeader.Timestamp-stream.lastRTPTimeRTP)) //nolint:gosec // G115: signed 32-bit difference is intended
 		if D < 0 {
 			D = -D
 		}
